@@ -121,7 +121,8 @@ func genCase(t *rapid.T) aggh.XCase {
 		switch k := rapid.IntRange(0, 9).Draw(t, "op"); {
 		case k <= 4:
 			c.Ops = append(c.Ops, aggh.XOp{Kind: "rec", Flow: rapid.SampledFrom([]int{0, 0, 0, 1, 1, 2, 3}).Draw(t, "flow"), Side: rapid.SampledFrom([]string{"S", "D"}).Draw(t, "side"),
-				Incomplete: rapid.IntRange(0, 5).Draw(t, "incomplete") == 0, EndMode: rapid.SampledFrom([]string{"", "", "", "older", "equal"}).Draw(t, "end_mode")})
+				Incomplete: rapid.IntRange(0, 5).Draw(t, "incomplete") == 0, EndMode: rapid.SampledFrom([]string{"", "", "", "older", "equal"}).Draw(t, "end_mode"),
+				PodGen: rapid.SampledFrom([]int{0, 0, 0, 0, 0, 1, 2}).Draw(t, "pod_gen")})
 		case k <= 6:
 			c.Ops = append(c.Ops, aggh.XOp{Kind: "advance", Hours: rapid.SampledFrom([]int{1, 3, 4, 6, 11}).Draw(t, "h")})
 		default:
